@@ -11,6 +11,7 @@ import Driver.ClientIO
 import Driver.SpecIO
 import Driver.HSetIO
 import Driver.LinIO
+import Driver.NetIO
 /-!
 # Line-protocol oracle: one request per line on stdin, one reply per line on stdout.
 
@@ -161,11 +162,13 @@ structure DState where
   cl : Option Go.Client.Client := none
   ns : Option NsState := none
   hs : HsState := {}
+  net : Option Spec.Net.Net := none
 
 def handleSt (st : DState) (words : List String) : DState × String :=
   match words with
   | "tk" :: ws => let (t, r) := tkHandle st.tk ws; ({ st with tk := t }, r)
   | "cl" :: ws => let (c, r) := clHandle st.cl ws; ({ st with cl := c }, r)
+  | "net" :: ws => let (n, r) := netHandle st.net ws; ({ st with net := n }, r)
   | "hs" :: ws => let (h, r) := hsHandle st.hs ws; ({ st with hs := h }, r)
   | "ns" :: ws => let (n, r) := nsHandle st.ns ws; ({ st with ns := n }, r)
   | _ => match specHandle words with
